@@ -3,7 +3,8 @@
    Frame theorem: every entry that existed before an operation is unchanged after it, for histories of any length.
    Array buffers are runtime objects the model cannot exhibit: the real backends are tied to the model by bit-level
    snapshots of every operand before / after each catalogued call (see evidence; partial, as stated in DESIGN). *)
-From Coq Require Import List Arith Lia.
+From Coq Require Import List Arith Lia Bool.
+From VP Require Purity.
 Import ListNotations.
 
 Section Frame.
@@ -33,3 +34,12 @@ End Frame.
 
 Example C16_nonvacuous : nth_error (fold_left step [{| reads := [0; 1]; compute := fun l => 7 |}] [3; 4]) 1 = Some 4.
 Proof. reflexivity. Qed.
+
+(* The compute layer cannot write through an operand: every statement of every one of the 2433 compute functions (hand-written
+   variants and the closures made by the factories; python ast of the current source, gen/Purity.v) binds plain local names to a
+   new value or returns — no augmented assignment (x op= ...), no assignment to a subscript or attribute, no call with out=.
+   (NumPy / Awkward columns reach these functions by reference: an in-place operator there would overwrite the caller's array.) *)
+Definition pure_kind (k : VP.Purity.skind) : bool := match k with VP.Purity.SAssign | VP.Purity.SReturn => true | _ => false end.
+Theorem C16_compute_functions_bind_and_return_only :
+  forallb (fun e => forallb pure_kind (snd e)) VP.Purity.purity_tab = true /\ Nat.ltb 2000 (length VP.Purity.purity_tab) = true.
+Proof. vm_compute. split; reflexivity. Qed.
